@@ -1,19 +1,24 @@
-"""Built-in specification functions that need SMT-level definitions (sequence
-membership, sums over sequences, ...)."""
+"""Built-in specification functions that need SMT-level definitions:
+well-formedness of AST nodes (generated from the type definitions), the value of
+an expression as a function of the variables (for functions verified pure),
+sequence membership and prefix sums with one-step unfolding."""
 import z3
 
-from .model import Val
+from .model import Val, Ptr
 
 
-def _slice_content(sev, env, s, leaf_path='', sort=None):
+class SFError(Exception):
+    pass
+
+
+def _slice_content(sev, env, s, leaf_path=''):
     m = sev.m
     ex = sev.ex
     E = m.elem(s.t)
-    lay = m.layout(E)
-    for (p, srt, tk) in lay:
+    for (p, srt, tk) in m.layout(E):
         if p == leaf_path:
             return z3.Select(env.st.heap(ex.aname(E, p, srt)), s.leaves[0]), srt
-    raise KeyError(leaf_path)
+    raise SFError('no leaf %r in elements of %s' % (leaf_path, s.t))
 
 
 def sf_contains(sev, env, args):
@@ -26,6 +31,264 @@ def sf_contains(sev, env, args):
     return z3.Exists([i], z3.And(0 <= i, i < ln, z3.Select(content, off + i) == xt))
 
 
+# ----------------------------------------------------------------------------- well-formed ASTs
+
+def nullable(sev, T, fname):
+    key = '%s.%s' % (sev.m.types[T].get('name', T), fname)
+    return key in sev.ex.db.nullable
+
+
+def wf_any_fn(sev):
+    m = sev.m
+    return m.uf('wf_node', m.Any, m.Bool)
+
+
+def wf_term(sev, env, v, depth=0, unfold=True):
+    """well-formedness of value v (no unfolding of interface / pointer children: atoms)"""
+    m = sev.m
+    ex = sev.ex
+    k = m.kind(v.t)
+    wf = wf_any_fn(sev)
+    if k == 'interface':
+        a = v.leaves[0]
+        impls = m.types[v.t].get('impls') or (m.types[m.under(v.t)].get('impls') or [])
+        excl = sev.ex.db.wfexclude.get(m.types[v.t].get('name', ''), set())
+        impls = [c for c in impls if c.rsplit('.', 1)[-1] not in excl]
+        alts = [m.any_is(c, a) for c in impls if c in m.any_index]
+        if not alts:
+            return a != m.Any.nil
+        t = z3.And(wf(a), z3.Or(*alts))
+        if unfold:
+            unfold_any(sev, env, v.t, a, impls)
+        return t
+    if k == 'pointer':
+        E = m.elem(v.t)
+        ref = sev.term(v)
+        if m.is_bigint(E) or m.is_bigrat(E):
+            return ref != 0
+        if m.kind(E) == 'struct' and v.t in m.any_index:
+            a = m.any_make(v.t, [ref])
+            if unfold:
+                unfold_any(sev, env, None, a, [v.t])
+            return z3.And(ref != 0, wf(a))
+        if m.kind(E) == 'interface':
+            # pointer to an interface cell (e.g. *ValueExpr): the pointee must be well formed
+            inner = ex.load(env.st, ex.ptr_of(v))
+            return z3.And(ref != 0, wf_term(sev, env, inner, depth + 1, unfold))
+        return ref != 0
+    if k == 'struct':
+        return wf_fields(sev, env, v.t, lambda fidx, ft, fname: field_of_val(sev, v, fidx), depth, unfold)
+    if k == 'slice':
+        E = m.elem(v.t)
+        arr, off, ln = v.leaves
+        i = z3.Int('i!wf%d' % depth)
+        ev = ex.load(env.st, Ptr('elem', E, '', arr, off + i))
+        body = wf_term(sev, env, ev, depth + 1, False)
+        if z3.is_true(body):
+            return z3.BoolVal(True)
+        return z3.ForAll([i], z3.Implies(z3.And(0 <= i, i < ln), body))
+    return z3.BoolVal(True)
+
+
+def field_of_val(sev, v, fidx):
+    a, b, ft, fname = sev.m.field_slice(v.t, fidx)
+    return Val(ft, v.leaves[a:b])
+
+
+def wf_fields(sev, env, T, getfield, depth, unfold=False):
+    m = sev.m
+    cs = []
+    fields = m.types[m.under(T)].get('fields') or []
+    for i, f in enumerate(fields):
+        fk = m.kind(f['t'])
+        if fk in ('interface', 'pointer', 'struct', 'slice'):
+            fv = getfield(i, f['t'], f['n'])
+            if fk == 'interface' and not (m.types[f['t']].get('impls') or m.types[m.under(f['t'])].get('impls')):
+                continue
+            if fk in ('pointer', 'interface') and nullable(sev, T, f['n']):
+                inner = wf_term(sev, env, fv, depth + 1, unfold)
+                isnil = fv.leaves[0] == (m.Any.nil if fk == 'interface' else 0)
+                cs.append(z3.Or(isnil, inner))
+            else:
+                t = wf_term(sev, env, fv, depth + 1, unfold)
+                if not z3.is_true(t):
+                    cs.append(t)
+    return z3.And(*cs) if cs else z3.BoolVal(True)
+
+
+def unfold_any(sev, env, iface_t, a, impls):
+    """one-step unfolding of wf_node(a) for the given candidate dynamic types, added to the state"""
+    m = sev.m
+    ex = sev.ex
+    wf = wf_any_fn(sev)
+    key = ('wfunfold', a.get_id(), id(env.st))
+    seen = getattr(env.st, '_unfolded', None)
+    done = sev.ex.unfold_done
+    if (a.get_id(), id(env.st.heaps)) in done:
+        return
+    done.add((a.get_id(), id(env.st.heaps)))
+    for c in impls:
+        if c not in m.any_index:
+            continue
+        if m.kind(c) != 'pointer':
+            continue
+        E = m.elem(c)
+        if m.kind(E) != 'struct':
+            continue
+        ref = m.any_get(c, a)[0]
+        p = Ptr('obj', E, '', ref)
+
+        def getfield(i, ft, fname, p=p):
+            return ex.load(env.st, Ptr('obj', p.T, fname + '.', p.ref))
+        body = wf_fields(sev, env, E, getfield, 1, False)
+        for cl in sev.ex.db.wfalso.get(m.types[E].get('name', ''), []):
+            e2 = env.bind('self', Val(c, [ref]))
+            body = z3.And(body, sev.eval_bool(cl.ast, e2))
+        env.st.assume(z3.Implies(z3.And(m.any_is(c, a), wf(a)), z3.And(ref != 0, body)))
+
+
+def sf_wf(sev, env, args):
+    v = args[0]
+    if not isinstance(v, Val):
+        raise SFError('wf() of a non-value')
+    return wf_term(sev, env, v)
+
+
+# ----------------------------------------------------------------------------- pure evaluation of expressions
+
+def _pv_parts(sev, env, st_ptr):
+    """(dom, val) arrays of st.ParsedVars in the current state"""
+    pv = sev.select(st_ptr, 'ParsedVars', env)
+    u, K, V = sev.ex.map_parts(pv.t)
+    dom = z3.Select(env.st.heap('MD|%s' % u), pv.leaves[0])
+    val = z3.Select(env.st.heap('MV|%s||Any' % u), pv.leaves[0])
+    return dom, val
+
+
+def sf_evalOf(sev, env, args):
+    """evalOf(st, e): the value evaluateExpr returns for e under st.ParsedVars (nil on error)"""
+    m = sev.m
+    stp, e = args
+    dom, val = _pv_parts(sev, env, stp)
+    f = m.uf('eval_val', m.Any, dom.sort(), val.sort(), m.Any)
+    vt = sev.type_key(('id', 'Value'))
+    return Val(vt, [f(e.leaves[0], dom, val)])
+
+
+def sf_evalErr(sev, env, args):
+    m = sev.m
+    stp, e = args
+    dom, val = _pv_parts(sev, env, stp)
+    f = m.uf('eval_err', m.Any, dom.sort(), val.sort(), m.Any)
+    et = sev.type_key(('id', 'InterpreterError'))
+    return Val(et, [f(e.leaves[0], dom, val)])
+
+
+# ----------------------------------------------------------------------------- prefix sums
+
+def psum_fn(sev):
+    m = sev.m
+    return m.uf('psum', z3.ArraySort(m.Int, m.Int), m.Int, m.Int)
+
+
+def psum(sev, env, f, n):
+    """Sum_{i<n} f[i] with a one-step unfolding added to the state at creation (fuel 1)."""
+    ps = psum_fn(sev)
+    t = ps(f, n)
+    st = env.st
+    st.assume(z3.Implies(n <= 0, t == 0))
+    st.assume(z3.Implies(n > 0, t == ps(f, n - 1) + z3.Select(f, n - 1)))
+    sev.ex.uses_psum = True
+    return t
+
+
+def psum_axioms(sev):
+    """lemmas about psum (proved by induction in the lemma check, see lemmas.py)"""
+    m = sev.m
+    ps = psum_fn(sev)
+    A = z3.ArraySort(m.Int, m.Int)
+    f, g = z3.Consts('f!ps g!ps', A)
+    n, i = z3.Ints('n!ps i!ps')
+    ax = []
+    # extensionality on a prefix
+    ax.append(z3.ForAll([f, g, n], z3.Implies(z3.ForAll([i], z3.Implies(z3.And(0 <= i, i < n), z3.Select(f, i) == z3.Select(g, i))),
+                                             ps(f, n) == ps(g, n)), patterns=[z3.MultiPattern(ps(f, n), ps(g, n))]))
+    # non-negative terms give a non-negative, monotone sum
+    ax.append(z3.ForAll([f, n], z3.Implies(z3.ForAll([i], z3.Implies(z3.And(0 <= i, i < n), z3.Select(f, i) >= 0)), ps(f, n) >= 0),
+                        patterns=[ps(f, n)]))
+    return ax
+
+
+def _senders_term_array(sev, env, s, name, monleaf='Monetary', nameleaf='Name'):
+    """lambda i. ite(s[i].Name == name, val(s[i].Monetary), 0)   (name None: no filter)"""
+    m = sev.m
+    ex = sev.ex
+    E = m.elem(s.t)
+    arr, off, ln = s.leaves
+    mon = z3.Select(env.st.heap(ex.aname(E, monleaf, 'Int')), arr)
+    hi = env.st.heap('H|bigint||Int')
+    i = z3.Int('i!sm')
+    body = z3.Select(hi, z3.Select(mon, off + i))
+    if name is not None:
+        nm = z3.Select(env.st.heap(ex.aname(E, nameleaf, 'Str')), arr)
+        body = z3.If(z3.Select(nm, off + i) == name, body, z3.IntVal(0))
+    return z3.Lambda([i], body)
+
+
+def sf_sumMon(sev, env, args):
+    """sumMon(s, n): sum of val(s[i].Monetary) for i < n  (s: []Sender or []Receiver)"""
+    s, n = args
+    return psum(sev, env, _senders_term_array(sev, env, s, None), sev.term(n))
+
+
+def sf_sumMonBy(sev, env, args):
+    """sumMonBy(s, n, name): sum of val(s[i].Monetary) for i < n with s[i].Name == name"""
+    s, n, name = args
+    return psum(sev, env, _senders_term_array(sev, env, s, sev.term(name)), sev.term(n))
+
+
+def sf_sumMonNot(sev, env, args):
+    """sumMonNot(s, n, name): sum over the entries whose name differs from name"""
+    s, n, name = args
+    m = sev.m
+    ex = sev.ex
+    E = m.elem(s.t)
+    arr, off, ln = s.leaves
+    mon = z3.Select(env.st.heap(ex.aname(E, 'Monetary', 'Int')), arr)
+    nm = z3.Select(env.st.heap(ex.aname(E, 'Name', 'Str')), arr)
+    hi = env.st.heap('H|bigint||Int')
+    i = z3.Int('i!sm')
+    body = z3.If(z3.Select(nm, off + i) != sev.term(name), z3.Select(hi, z3.Select(mon, off + i)), z3.IntVal(0))
+    return psum(sev, env, z3.Lambda([i], body), sev.term(n))
+
+
+def sf_sumVals(sev, env, args):
+    """sumVals(s, n): sum of val(s[i]) for i < n (s: []*big.Int)"""
+    s, n = args
+    m = sev.m
+    ex = sev.ex
+    E = m.elem(s.t)
+    arr, off, ln = s.leaves
+    refs = z3.Select(env.st.heap(ex.aname(E, '', 'Int')), arr)
+    hi = env.st.heap('H|bigint||Int')
+    i = z3.Int('i!sv')
+    return psum(sev, env, z3.Lambda([i], z3.Select(hi, z3.Select(refs, off + i))), sev.term(n))
+
+
+def sf_sumAmounts(sev, env, args):
+    """sumAmounts(p, n): sum of val(p[i].Amount) for i < n (p: []Posting)"""
+    s, n = args
+    return psum(sev, env, _senders_term_array(sev, env, s, None, monleaf='Amount'), sev.term(n))
+
+
 BUILTINS = {
     'contains': sf_contains,
+    'wf': sf_wf,
+    'evalOf': sf_evalOf,
+    'evalErr': sf_evalErr,
+    'sumMon': sf_sumMon,
+    'sumMonBy': sf_sumMonBy,
+    'sumMonNot': sf_sumMonNot,
+    'sumVals': sf_sumVals,
+    'sumAmounts': sf_sumAmounts,
 }
